@@ -24,6 +24,9 @@ Cases ==
   \cup UNION {{<<a, <<d>>, v>> : v \in {0, 1, 4, 6, 16, 254, 255, 256, 257, 300}} : a \in {"arp.set_hw_addrs", "arp.set_protocol_addrs"}, d \in {0, 1}}
   \cup {<<"macsec.short_len.from_len", <<>>, v>> : v \in (0..70) \cup {255, 256, 319, 320, 65535, 65536, 65599, Huge}}
   \cup UNION {{<<"ipv6.set_dscp", <<tc>>, v>> : v \in 0..63} \cup {<<"ipv6.set_ecn", <<tc>>, v>> : v \in 0..3} : tc \in {0, 255, 165, 90, 3, 252}}
+  \cup UNION {{<<"igmp.set_qrv", <<rb>>, v>> : v \in 0..7} \cup {<<"igmp.set_s_flag", <<rb>>, v>> : v \in 0..1} \cup {<<"igmp.set_flags", <<rb>>, v>> : v \in (0..17) \cup {255}}
+              : rb \in {0, 255, 165, 90, 8, 247, 7, 248}}
+  \cup {<<"igmp.max_resp_10th", <<>>, v>> : v \in 0..255}
   \cup UNION {{<<"ipv4.payload_len", <<o>>, v>> : v \in {0, 1, 19, 20, 21, 59, 60, 61, 65535} \cup Around(20 + o)} : o \in {0, 4, 40}}
 
 VARIABLES api, ctx, v
@@ -35,7 +38,7 @@ Spec == Init /\ [][Next]_<<api, ctx, v>>
 
 \* the stated maximum is the true maximum: accepted <=> representable, and rejections name the limit
 AcceptIffFits == LET x == Expect(api, ctx, v) IN (x.ok => x.errs = {}) /\ (~x.ok => x.errs # {} /\ x.enc = -1)
-Monotone == (api \notin {"auth.new", "auth.set_raw_icv", "rawext.new_raw", "rawext.set_payload", "ipv4.set_options", "ipv4options.try_from", "macsec.set_payload_len", "macsec.short_len.from_len", "ipv4.payload_len", "arp.set_hw_addrs", "arp.set_protocol_addrs"} /\ v > 0 /\ v < Huge)
+Monotone == (api \notin {"auth.new", "auth.set_raw_icv", "rawext.new_raw", "rawext.set_payload", "ipv4.set_options", "ipv4options.try_from", "macsec.set_payload_len", "macsec.short_len.from_len", "ipv4.payload_len", "arp.set_hw_addrs", "arp.set_protocol_addrs", "igmp.set_flags", "igmp.max_resp_10th"} /\ v > 0 /\ v < Huge)
               => (Expect(api, ctx, v).ok => Expect(api, ctx, v - 1).ok)
 Emit == PrintT(<<"FIELD", ToJson([api |-> api, ctx |-> ctx, v |-> v])>>)
 ====
